@@ -22,8 +22,10 @@
 (*           and Shortest!IsShortestRoundTrip                              *)
 (*  "itoa" : the 64-bit integer (neg, magnitude digits dg) was printed as  *)
 (*           out (C08): optional '-', then exactly the digits              *)
+(*  "quote": the byte string in was quoted as out (C09):                   *)
+(*           Render!IsQuotingOf                                            *)
 (***************************************************************************)
-EXTENDS JsonText, Shortest, Json, CSV, IOUtils
+EXTENDS Render, Shortest, Json, CSV, IOUtils
 VARIABLE i
 
 Tr == ndJsonDeserialize(IOEnv.TRACE)
@@ -54,6 +56,7 @@ Holds(ev) ==
     [] ev.k = "numtext" -> NumTextOk(ev)
     [] ev.k = "ftoa" -> FtoaOk(ev)
     [] ev.k = "itoa" -> ItoaOk(ev)
+    [] ev.k = "quote" -> IsQuotingOf(ev.out, ev["in"])
     [] OTHER -> FALSE
 
 Init == i \in 1..Len(Tr)
